@@ -343,9 +343,62 @@ def ptag_shapes():
     ]
 
 
-def run_lists_real(suite, backend, rng, n):
+def lists_real_one(suite, backend, scratch, mc, service=""):
+    """one ListBuilder.run_once against a real store holding the case's events"""
     from nostr_relay import dynamic_lists as dl
     from nostr_relay.config import Config
+    allow_events, deny_events = mc["allow_events"], mc["deny_events"]
+    initial_w = [p for p in mc["initial"] if p != service] if service else list(mc["initial"])
+
+    async def go():
+        env.load_config(authentication={"enabled": False})
+        st = await make_storage(backend, scratch, [DOTTED["is_signed"]])
+        try:
+            for j, tags in enumerate(allow_events or []):
+                await st.add_event(env.mk_event(j % 4, 1, NOW - j, tags, "a%d" % j))
+            for j, tags in enumerate(deny_events or []):
+                await st.add_event(env.mk_event(j % 4, 4, NOW - j, tags, "d%d" % j))
+            await env.quiesce(st)
+            Config.dynamic_lists = {"check_interval": 7200}
+            if allow_events is not None:
+                Config.dynamic_lists["allow_list_queries"] = [{"kinds": [1]}]
+            if deny_events is not None:
+                Config.dynamic_lists["deny_list_queries"] = [{"kinds": [4]}]
+            Config.service_privatekey = env.SECRETS[env.PUBS.index(service)] if service else ""
+            Config.pubkey_whitelist = list(initial_w)
+            set_lists(mc["old_allow"], mc["old_deny"])
+            saved = dl.get_storage
+            dl.get_storage = lambda: st
+            try:
+                b = dl.ListBuilder()
+                status = "done"
+                try:
+                    await b.run_once()
+                except Exception as e:  # noqa
+                    status = "raised"
+            finally:
+                dl.get_storage = saved
+            return sorted(dl.ALLOWED_PUBKEYS), sorted(dl.DENIED_PUBKEYS), status
+        finally:
+            await close_storage(st)
+    allow, deny, status = env.run(go())
+    mo = model_batch("c16.refresh", [mc])[0]
+    io = {"readers": [], "allow": allow, "deny": deny, "writer": status}
+    cc = dict(mc, backend=backend, service=service)
+    suite.case(cc, nontrivial=bool(allow or deny))
+    suite.count("conf_" + ("both" if allow_events is not None and deny_events is not None else "allow" if allow_events is not None else "deny" if deny_events is not None else "none"))
+    suite.count("allow_size_%d" % min(len(allow), 4))
+    mcanon = {"readers": [], "allow": sorted(mo["allow"]), "deny": sorted(mo["deny"]), "writer": mo["writer"]}
+    if mcanon != io:
+        suite.disagree(cc, mcanon, io)
+    vd = model_batch("c16.refresh_holds", [dict(mc, obs=io)])[0]
+    if vd != "ok":
+        suite.violate(vd, {"kind": "lists-real", "backend": backend, "case": mc, "service": service},
+                      "lists after run_once differ from the p-tagged pubkeys of the query results plus static keys: " + vd,
+                      observed=io)
+
+
+def run_lists_real(suite, backend, rng, n):
     scratch = env.Scratch()
     shapes = ptag_shapes()
     try:
@@ -357,60 +410,11 @@ def run_lists_real(suite, backend, rng, n):
             service = rng.choice(["", env.PUBS[2]])
             old_allow = rng.choice([[], [bytes.fromhex(env.PUBS[1])], [b"\x01" * 32]])
             old_deny = rng.choice([[], [b"\x02" * 32]])
-
-            async def go():
-                env.load_config(authentication={"enabled": False})
-                st = await make_storage(backend, scratch, [DOTTED["is_signed"]])
-                try:
-                    for j, tags in enumerate(allow_events):
-                        await st.add_event(env.mk_event(j % 4, 1, NOW - j, tags, "a%d" % j))
-                    for j, tags in enumerate(deny_events):
-                        await st.add_event(env.mk_event(j % 4, 4, NOW - j, tags, "d%d" % j))
-                    await env.quiesce(st)
-                    Config.dynamic_lists = {}
-                    if conf in ("both", "allow"):
-                        Config.dynamic_lists["allow_list_queries"] = [{"kinds": [1]}]
-                    if conf in ("both", "deny"):
-                        Config.dynamic_lists["deny_list_queries"] = [{"kinds": [4]}]
-                    Config.dynamic_lists["check_interval"] = 7200
-                    Config.service_privatekey = env.SECRETS[env.PUBS.index(service)] if service else ""
-                    Config.pubkey_whitelist = list(initial_w)
-                    set_lists(old_allow, old_deny)
-                    saved = dl.get_storage
-                    dl.get_storage = lambda: st
-                    try:
-                        b = dl.ListBuilder()
-                        status = "done"
-                        try:
-                            await b.run_once()
-                        except Exception as e:  # noqa
-                            status = "raised"
-                    finally:
-                        dl.get_storage = saved
-                    return sorted(dl.ALLOWED_PUBKEYS), sorted(dl.DENIED_PUBKEYS), status
-                finally:
-                    await close_storage(st)
-            allow, deny, status = env.run(go())
-            initial = ([service] if service else []) + list(initial_w)
             mc = {"old_allow": old_allow, "old_deny": old_deny,
                   "allow_events": allow_events if conf in ("both", "allow") else None,
                   "deny_events": deny_events if conf in ("both", "deny") else None,
-                  "initial": initial, "readers": [], "sched": []}
-            mo = model_batch("c16.refresh", [mc])[0]
-            io = {"readers": [], "allow": allow, "deny": deny, "writer": status}
-            cc = dict(mc, backend=backend)
-            nt = bool(allow or deny)
-            suite.case(cc, nontrivial=nt)
-            suite.count("conf_" + conf)
-            suite.count("allow_size_%d" % min(len(allow), 4))
-            mcanon = {"readers": [], "allow": sorted(mo["allow"]), "deny": sorted(mo["deny"]), "writer": mo["writer"]}
-            if mcanon != io:
-                suite.disagree(cc, mcanon, io)
-            vd = model_batch("c16.refresh_holds", [dict(mc, obs=io)])[0]
-            if vd != "ok":
-                suite.violate(vd, {"kind": "lists-real", "backend": backend, "case": mc},
-                              "lists after run_once differ from the p-tagged pubkeys of the query results plus static keys",
-                              observed=io)
+                  "initial": ([service] if service else []) + list(initial_w), "readers": [], "sched": []}
+            lists_real_one(suite, backend, scratch, mc, service)
     finally:
         scratch.close()
         set_lists([], [])
@@ -715,6 +719,16 @@ def run(tier, seed):
 
 
 def replay(payload):
+    import logging
+    import os
+    import sys
+    logging.disable(logging.CRITICAL)
+    rc = _replay(payload)
+    sys.stdout.flush()
+    os._exit(rc)
+
+
+def _replay(payload):
     v = payload["violation"]
     c = v["case"]
     env.load_config(authentication={"enabled": False})
@@ -728,8 +742,12 @@ def replay(payload):
     elif kind == "refresh":
         run_refresh(s, [c["case"]])
     elif kind == "lists-real":
-        print("replay of lists-real cases: re-run ./check C16 with the recorded seed")
-        return 1
+        scratch = env.Scratch()
+        try:
+            lists_real_one(s, c["backend"], scratch, c["case"], c.get("service", ""))
+        finally:
+            scratch.close()
+            set_lists([], [])
     for x in s.violations:
         print("still failing:", x["cls"], x["what"], x["observed"])
     print("replay:", "FAIL" if s.violations else "pass")
